@@ -336,23 +336,35 @@ tokio::task_local! {
 }
 
 /// Global wait-for graph.
-/// Key: waiting actor's ID, Value: target actor's Identity.
+/// Key: waiting actor's ID, Value: target actor's Identity and the token of the ask that inserted the edge.
 #[cfg(feature = "deadlock-detection")]
-static WAIT_FOR: OnceLock<Mutex<HashMap<u64, Identity>>> = OnceLock::new();
+static WAIT_FOR: OnceLock<Mutex<HashMap<u64, (Identity, u64)>>> = OnceLock::new();
+
+/// Source of per-ask tokens: an edge is only ever removed by (or on behalf of) the ask that inserted it.
+#[cfg(feature = "deadlock-detection")]
+pub(crate) static WAIT_FOR_TOKENS: AtomicU64 = AtomicU64::new(1);
 
 #[cfg(feature = "deadlock-detection")]
-pub(crate) fn wait_for_graph() -> &'static Mutex<HashMap<u64, Identity>> {
+pub(crate) fn wait_for_graph() -> &'static Mutex<HashMap<u64, (Identity, u64)>> {
     WAIT_FOR.get_or_init(|| Mutex::new(HashMap::new()))
 }
 
 #[cfg(feature = "deadlock-detection")]
-pub(crate) struct WaitForGuard(pub(crate) u64);
+pub(crate) struct WaitForGuard(pub(crate) u64, pub(crate) u64);
 
 #[cfg(feature = "deadlock-detection")]
 impl Drop for WaitForGuard {
     fn drop(&mut self) {
-        if let Ok(mut graph) = wait_for_graph().lock() {
-            graph.remove(&self.0);
+        remove_wait_for_edge(self.0, self.1);
+    }
+}
+
+/// Removes the edge of `caller` if it still belongs to the ask identified by `token`.
+#[cfg(feature = "deadlock-detection")]
+pub(crate) fn remove_wait_for_edge(caller: u64, token: u64) {
+    if let Ok(mut graph) = wait_for_graph().lock() {
+        if graph.get(&caller).map(|(_, t)| *t) == Some(token) {
+            graph.remove(&caller);
         }
     }
 }
@@ -361,12 +373,12 @@ impl Drop for WaitForGuard {
 /// Self-ask (caller == callee) is checked by the caller before invoking this function,
 /// so this only handles cycles of 2+ hops.
 #[cfg(feature = "deadlock-detection")]
-pub(crate) fn has_path(graph: &HashMap<u64, Identity>, from: u64, to: u64) -> bool {
+pub(crate) fn has_path(graph: &HashMap<u64, (Identity, u64)>, from: u64, to: u64) -> bool {
     let mut current = from;
     let max_steps = graph.len();
     for _ in 0..max_steps {
         match graph.get(&current) {
-            Some(identity) => {
+            Some((identity, _)) => {
                 if identity.id == to {
                     return true;
                 }
@@ -381,7 +393,7 @@ pub(crate) fn has_path(graph: &HashMap<u64, Identity>, from: u64, to: u64) -> bo
 /// Format the cycle path for panic messages.
 #[cfg(feature = "deadlock-detection")]
 pub(crate) fn format_cycle_path(
-    graph: &HashMap<u64, Identity>,
+    graph: &HashMap<u64, (Identity, u64)>,
     caller: Identity,
     callee: Identity,
 ) -> String {
@@ -393,7 +405,7 @@ pub(crate) fn format_cycle_path(
     let max_steps = graph.len();
     for _ in 0..max_steps {
         match graph.get(&current) {
-            Some(identity) => {
+            Some((identity, _)) => {
                 path.push(identity.to_string());
                 if identity.id == caller.id {
                     break;
@@ -426,6 +438,7 @@ where
         actor: &mut A,
         actor_ref: ActorRef<A>,
         reply_channel: Option<oneshot::Sender<Box<dyn std::any::Any + Send>>>,
+        #[cfg(feature = "deadlock-detection")] asker: Option<(u64, u64)>,
     ) -> BoxFuture<'_, ()>;
 }
 
@@ -446,10 +459,17 @@ where
         actor: &mut A,
         actor_ref: ActorRef<A>,
         reply_channel: Option<oneshot::Sender<Box<dyn std::any::Any + Send>>>,
+        #[cfg(feature = "deadlock-detection")] asker: Option<(u64, u64)>,
     ) -> BoxFuture<'_, ()> {
         async move {
             let result = Message::handle(actor, *self, &actor_ref).await;
             if let Some(channel) = reply_channel {
+                // The ask is answered from here on: the asker no longer waits for this actor,
+                // even though its own drop guard only runs once it is polled again.
+                #[cfg(feature = "deadlock-detection")]
+                if let Some((asker, token)) = asker {
+                    remove_wait_for_edge(asker, token);
+                }
                 match channel.send(Box::new(result)) {
                     Ok(_) => {
                         #[cfg(feature = "tracing")]
@@ -491,6 +511,9 @@ where
         reply_channel: Option<oneshot::Sender<Box<dyn std::any::Any + Send>>>,
         /// The actor reference for potential self-messaging or context.
         actor_ref: ActorRef<T>,
+        /// ID of the actor whose hook issued this `ask` (wait-for graph key), if any.
+        #[cfg(feature = "deadlock-detection")]
+        asker: Option<(u64, u64)>,
     },
     /// A signal for the actor to stop gracefully after processing existing messages in its mailbox.
     ///
